@@ -94,6 +94,29 @@ def dec_fixed(v, W):
     return at
 
 
+def nested_division_lemmas(E, t, W):
+    """(t div 10^(j+1)) = (t div 10^j) div 10 : identities of floor division the solver needs to relate the decimal digits of
+    t to t itself.  Each instance is discharged here as its own obligation before it is used as a fact."""
+    import time
+    from .engine import Obligation
+    for j in range(0, W - 1):
+        f = (t / POW10[j + 1]) == (t / POW10[j]) / 10
+        if not E.replaying():
+            t0 = time.time()
+            s = z3.Solver()
+            s.set('timeout', 20000)
+            s.add(t >= 0, z3.Not(f))
+            r = s.check()
+            ob = Obligation('arith-lemma/nested-division[10^%d]' % (j + 1), 'I', [t >= 0], f, None, 'lemma-app')
+            ob.unit = E.unit_name
+            ob.status = 'unsat' if r == z3.unsat else 'unknown'
+            ob.time = time.time() - t0
+            E.obligations.append(ob)
+            if r != z3.unsat:
+                continue
+        E.fact(z3.Implies(t >= 0, f))
+
+
 def str_of_int(E, v):
     """str(v) for an int value"""
     t = I(v)
@@ -555,11 +578,38 @@ def parse_spec(cs):
     return fill, align, zero, width, typ
 
 
+def parse_spec_parts(parts):
+    """format spec given as literal / decimal pieces, e.g. '<' + str(n)  or  '0' + str(n) + 'd' : width may be a term"""
+    lits = ''.join(p[1] if p[0] == 'lit' else '\0' for p in parts)
+    decs = [p[1] for p in parts if p[0] == 'dec']
+    if len(decs) != 1:
+        raise Unsupported('format spec with %d symbolic pieces' % len(decs))
+    head, tail = lits.split('\0')
+    fill, align, zero, width, typ = parse_spec(head + '1' + tail)     # parse with a placeholder width
+    if head and head[-1].isdigit() and head[-1] != '0':
+        raise Unsupported('format spec width with literal and symbolic digits')
+    if tail and tail[0].isdigit():
+        raise Unsupported('format spec width with literal and symbolic digits')
+    return fill, align, zero, decs[0], typ
+
+
 def format_value(E, v, spec):
-    cs = spec_parts(E, spec) if spec is not None else ''
+    cs = conc_str(spec) if spec is not None else ''
     if cs == '' and isinstance(v, VSeq):
         return v
-    fill, align, zero, width, typ = parse_spec(cs)
+    if cs is None:
+        parts = seq_parts(spec)
+        if parts is None:
+            raise Unsupported('symbolic format spec')
+        fill, align, zero, width, typ = parse_spec_parts(parts)
+        cw = conc_int(width)
+        if cw is not None:
+            width = cw
+            cs = '%s%s%s%s%s' % (fill or '', align or '', '0' if zero else '', cw, typ or '')
+        else:
+            cs = '<symbolic width>'
+    else:
+        fill, align, zero, width, typ = parse_spec(cs)
     if isinstance(v, VOpaque) and v.sort_name == 'datetime':
         from . import models_iso
         return models_iso.format_datetime(E, v, cs)
@@ -582,11 +632,22 @@ def format_value(E, v, spec):
         if al != '<':
             raise Unsupported('str alignment %s' % al)
         n = v.n
-        tot = z3.simplify(z3.If(n >= width, n, width))
-        if v.items is not None:
+        if isinstance(width, int) and v.items is not None:
             items = list(v.items) + [fillc] * max(0, width - len(v.items))
             return seq_items('str', items)
-        return VSeq('str', tot, lambda i, v=v, n=n, fillc=fillc: ite(I(i) < n, v.at(i), fillc))
+        wt = I(width)
+        tot = z3.simplify(dite(E.decide, n >= wt, n, wt))
+        def at(i, v=v, n=n, fillc=fillc):
+            c = I(i) < n
+            d = bool_lit(c)
+            if d is None:
+                d = E.decide(c)
+            if d is True:
+                return v.at(i)
+            if d is False:
+                return fillc
+            return ite(c, v.at(i), fillc)
+        return VSeq('str', tot, at)
     if isinstance(v, (VInt, VBool)):
         t = E.as_int(v)
         c = conc_int(t)
@@ -599,8 +660,11 @@ def format_value(E, v, spec):
                 return str_of_int(E, t)
             if not zero:
                 raise Unsupported('space padded int format')
+            if not isinstance(width, int):
+                raise Unsupported('zero padded int format with symbolic width')
             W = width
             main = z3.And(t >= 0, t < POW10[W])
+            nested_division_lemmas(E, t, W)
             if not E.feasible(z3.Not(main)):
                 return VSeq('str', W, dec_fixed(t, W), tag=('dec0', t, W))
             # value does not fit / negative: longer than W or carrying a sign; content uninterpreted
@@ -941,9 +1005,10 @@ def m_upper(E, a, kw):
 def m_rstrip(E, a, kw):
     s = a[0]
     cs = conc_str(s)
-    if cs is not None:
+    if cs is not None and len(a) == 1:
         return seq_lit('str', cs.rstrip())
-    raise Unsupported('rstrip on symbolic str')
+    from . import models_iso
+    return models_iso._abstract_rstrip(E, s)
 
 
 @method('str', 'join')
@@ -989,7 +1054,7 @@ def m_pop(E, a, kw):
     if E.branch(sq.n == 0):
         _raise(E, IndexError, 'pop from empty list')
     v = sq.at(z3.simplify(sq.n - 1))
-    E.setf(ref, 'val', seq_slice(sq, None, z3.simplify(sq.n - 1)))
+    E.setf(ref, 'val', seq_slice(sq, None, z3.simplify(sq.n - 1), E.decide))
     return v
 
 
@@ -1012,9 +1077,11 @@ def m_dict_update(E, a, kw):
         d2.update(od)
         E.setf(ref, 'val', d2)
         return NONE
-    if not isinstance(d, dict):
-        return d.update(E, ref, other)
-    raise Unsupported('dict.update with symbolic dict')
+    if isinstance(d, dict):
+        from .models_iso import AssocDict
+        d = AssocDict.from_concrete(d)
+        E.setf(ref, 'val', d)
+    return d.update(E, ref, other)
 
 
 @method('dict', 'items')
@@ -1107,7 +1174,11 @@ def m_struct_unpack(E, a, kw):
             _raise(E, _struct.error, 'unpack requires a buffer of 1 bytes')
         return VTuple([VInt(I(data.at(z3.IntVal(0))))])
     # '4s16sNs' / '4s32sNs' with N = str(symbolic int): recognise the concatenation structure
-    segs = getattr(fmt, 'segs', None)
+    segs = None
+    parts = seq_parts(fmt) if cs is None else None
+    if parts is not None and len(parts) == 3 and parts[0][0] == 'lit' and parts[1][0] == 'dec' and parts[2] == ('lit', 's') \
+            and parts[0][1] in ('4s16s', '4s32s'):
+        segs = (4, 16 if parts[0][1] == '4s16s' else 32, parts[1][1])
     if cs is not None:
         import re
         m = re.fullmatch(r'4s(16|32)s(-?\d+)s', cs)
@@ -1119,7 +1190,7 @@ def m_struct_unpack(E, a, kw):
             _raise(E, _struct.error, 'bad char in struct format')
         if E.branch(data.n != n1 + n2 + nt):
             _raise(E, _struct.error, 'unpack requires a buffer of N bytes')
-        return VTuple([seq_slice(data, 0, n1), seq_slice(data, n1, n1 + n2), seq_slice(data, n1 + n2, None)])
+        return VTuple([seq_slice(data, 0, n1, E.decide), seq_slice(data, n1, n1 + n2, E.decide), seq_slice(data, n1 + n2, None, E.decide)])
     raise Unsupported('struct.unpack(%r)' % (cs,))
 
 
@@ -1228,7 +1299,7 @@ def m_file_write(E, a, kw):
     if bool_lit(pos == content.n) is True:
         newc = seq_concat(content, b)
     else:
-        newc = seq_concat(seq_concat(seq_slice(content, None, pos), b), seq_slice(content, z3.simplify(pos + b.n), None))
+        newc = seq_concat(seq_concat(seq_slice(content, None, pos, E.decide), b), seq_slice(content, z3.simplify(pos + b.n), None, E.decide))
     E.setf(f, 'content', newc)
     E.setf(f, 'pos', VInt(z3.simplify(pos + b.n)))
     return VInt(b.n)
@@ -1242,11 +1313,11 @@ def m_file_read(E, a, kw):
     if len(a) > 1 and a[1] is not NONE:
         k = E.as_int(a[1])
         if E.branch(k < 0):
-            out = seq_slice(content, pos, None)
+            out = seq_slice(content, pos, None, E.decide)
         else:
-            out = seq_slice(content, pos, z3.simplify(pos + k))
+            out = seq_slice(content, pos, z3.simplify(pos + k), E.decide)
     else:
-        out = seq_slice(content, pos, None)
+        out = seq_slice(content, pos, None, E.decide)
     E.setf(f, 'pos', VInt(z3.simplify(pos + out.n)))
     return out
 
